@@ -384,17 +384,20 @@ func (l *pipeListener) Close() error   { l.once.Do(func() { close(l.closed) }); 
 func (l *pipeListener) Addr() net.Addr { return &net.TCPAddr{IP: net.IPv4(127, 0, 0, 1), Port: 80} }
 
 // wsPair creates a real coder/websocket connection pair over net.Pipe.
-func wsPair(e *Env) (client, server *websocket.Conn, ok bool) {
+func wsPair(e *Env, raiseLimit bool) (client, server *websocket.Conn, ok bool) {
 	ln := &pipeListener{ch: make(chan net.Conn, 1), closed: make(chan struct{})}
 	got := make(chan *websocket.Conn, 1)
 	held := make(chan struct{})
 	srv := &http.Server{Handler: http.HandlerFunc(func(w http.ResponseWriter, r *http.Request) {
 		c, err := websocket.Accept(w, r, &websocket.AcceptOptions{InsecureSkipVerify: true})
+		_ = raiseLimit
 		if err != nil {
 			got <- nil
 			return
 		}
-		c.SetReadLimit(-1)
+		if raiseLimit {
+			c.SetReadLimit(-1)
+		}
 		got <- c
 		<-held // keep the handler (and with it the hijacked connection) alive
 	})}
@@ -411,7 +414,9 @@ func wsPair(e *Env) (client, server *websocket.Conn, ok bool) {
 	if err != nil {
 		return nil, nil, false
 	}
-	c.SetReadLimit(-1)
+	if raiseLimit {
+		c.SetReadLimit(-1)
+	}
 	s := <-got
 	if s == nil {
 		return nil, nil, false
@@ -422,17 +427,30 @@ func wsPair(e *Env) (client, server *websocket.Conn, ok bool) {
 
 func execWebsocketTransport(e *Env, p *TransportParams) {
 	const prop = "C19"
-	c, s, ok := wsPair(e)
+	// one round trip in four uses the transport exactly as the README shows it
+	// (websocket.Dial / Accept, then NewGoatOverWebsocket), without raising
+	// coder/websocket's default read limit
+	documented := p.Mode%3 == 0 && p.TickAt%4 == 3
+	c, s, ok := wsPair(e, !documented)
 	if !ok {
 		e.Note("ws.setup.failed")
 		return
 	}
 	a, b := goat.NewGoatOverWebsocket(c), goat.NewGoatOverWebsocket(s)
+	if documented {
+		wsDocumentedUsage(e, a, b, envsOf(p, false))
+		return
+	}
 	switch p.Mode % 3 {
 	case 0:
 		roundTrip(e, "websocket", a, b, envsOf(p, false))
 	case 1:
-		blockedOps(e, "websocket", b, nil)
+		if p.TickAt%2 == 0 {
+			blockedOps(e, "websocket", b, nil)
+		} else {
+			// the peer has stopped reading: a Write blocks, and returns once its context is done
+			blockedOps(e, "websocket", nil, a)
+		}
 	default:
 		// raw input on the client socket, read through goat on the server side
 		ctx, cancel := context.WithCancel(context.Background())
@@ -527,6 +545,68 @@ func (b *brokenBody) Read(p []byte) (int, error) {
 	return n, nil
 }
 func (b *brokenBody) Close() error { return nil }
+
+// wsDocumentedUsage: round trip over a WebSocket pair set up as the README
+// documents. Envelopes up to 32 KiB must arrive unchanged and in order; the
+// first larger one shows whether the transport carries it (C19 asks for bodies
+// up to 1 MiB) - a failure there has its own class and site, so that it can be
+// listed as a known finding without hiding anything else.
+func wsDocumentedUsage(e *Env, w, r goat.RpcReadWriter, envs []*Rpc) {
+	const prop = "C19"
+	ctx, cancel := context.WithCancel(context.Background())
+	e.OnTeardown(cancel)
+	e.Go("ws.doc.writer", func() {
+		for _, m := range envs {
+			e.Pt("t.write")
+			if w.Write(ctx, m) != nil {
+				return
+			}
+		}
+	})
+	var got []*Rpc
+	var rerr error
+	e.Go("ws.doc.reader", func() {
+		for len(got) < len(envs) {
+			e.Pt("t.read")
+			m, err := r.Read(ctx)
+			if err != nil {
+				rerr = err
+				return
+			}
+			got = append(got, m)
+		}
+	})
+	if rr := e.Settle(); rr == Crashed || rr == StepLimit {
+		return
+	}
+	e.Note("nontrivial")
+	e.Note("ws.documented-usage")
+	firstBig := -1
+	for i, m := range envs {
+		if proto.Size(m) > 32768 {
+			firstBig = i
+			break
+		}
+	}
+	for i, m := range got {
+		if !proto.Equal(m, envs[i]) {
+			e.Violate(prop, "altered", "websocket.documented-usage", "envelope #%d arrived altered", i)
+			return
+		}
+	}
+	if len(got) == len(envs) {
+		if firstBig >= 0 {
+			e.Note("ws.documented-usage.big-carried")
+		}
+		return
+	}
+	if firstBig >= 0 && len(got) == firstBig {
+		e.Note("ws.documented-usage.big-rejected")
+		e.Violate(prop, "envelope-over-32KiB-rejected", "websocket.default-read-limit", "envelope #%d (%d bytes encoded) was written on a WebSocket transport set up as documented; the reader failed with %v after %d envelopes: the transport does not raise coder/websocket's 32 KiB default read limit", firstBig, proto.Size(envs[firstBig]), rerr, len(got))
+		return
+	}
+	e.Violate(prop, "lost", "websocket.documented-usage", "%d envelopes written, %d read (reader error %v, first envelope over 32 KiB: #%d)\n%s", len(envs), len(got), rerr, firstBig, e.WaitGraph())
+}
 
 // memRoundTripper routes http://<addr>/ to the GoatOverHttp registered for addr.
 type memRoundTripper struct {
